@@ -47,11 +47,11 @@ func readDiskAccount(cfg, login string) *hotline.Account {
 }
 
 const (
-	c06Denied  = 0
-	c06Created = 1
+	c06Denied   = 0
+	c06Created  = 1
 	c06OtherErr = 2
-	c06Panic   = 3
-	c06Nothing = 4
+	c06Panic    = 3
+	c06Nothing  = 4
 )
 
 func genC06(cs *CaseSet, rng *Rng, tier string, dir string) {
@@ -119,9 +119,9 @@ func genC06(cs *CaseSet, rng *Rng, tier string, dir string) {
 		var reqBM hotline.AccessBitmap
 		copy(reqBM[:], reqField)
 		cs.Add(Case{
-			Kind: kind,
-			Ops:  []Op{mkOp(code, map[bool]string{false: "NewUser", true: "UpdateUser-create"}[viaUpdate], creator[:], reqField, b1(omitAccess))},
-			Obs:  [][][]byte{{{byte(status)}, mem, disk}},
+			Kind:       kind,
+			Ops:        []Op{mkOp(code, map[bool]string{false: "NewUser", true: "UpdateUser-create"}[viaUpdate], creator[:], reqField, b1(omitAccess))},
+			Obs:        [][][]byte{{{byte(status)}, mem, disk}},
 			NonTrivial: creator != zero && reqBM != zero && creator != reqBM,
 		})
 	}
@@ -249,6 +249,18 @@ func genC06(cs *CaseSet, rng *Rng, tier string, dir string) {
 		disc("random", ra, ta, opts[rng.Intn(len(opts))])
 	}
 	time.Sleep(1300 * time.Millisecond) // the handler closes the target after a 1 s delay
+	// with thousands of delayed disconnects, each notifying every remaining client, the last ones need longer
+	for dl := time.Now().Add(60 * time.Second); time.Now().Before(dl); time.Sleep(50 * time.Millisecond) {
+		open := 0
+		for _, p := range pend {
+			if p.status == c06Created && !p.nc.Closed() {
+				open++
+			}
+		}
+		if open == 0 {
+			break
+		}
+	}
 	fresh, err := mobius.NewBanFile(filepath.Join(env.Cfg, "Banlist.yaml"))
 	must(err)
 	banCode := func(bl hotline.BanMgr, ip string) byte {
